@@ -329,5 +329,202 @@ theorem ctor_spec (rows cols n : Nat) (sh : List Int) :
         rw [if_neg (by omega)]; exact ⟨_, rfl⟩
       · rw [if_neg hz, if_neg (by omega), if_neg (by omega)]; exact ⟨_, rfl⟩
 
+/-! ### the GCXS constructor (triple form) -/
+
+theorem nondecreasing_iff_pairwise : ∀ (l : List Int), nondecreasing l = true ↔ l.Pairwise (· ≤ ·)
+  | [] => by simp [nondecreasing]
+  | [a] => by simp [nondecreasing]
+  | a :: b :: t => by
+    have ih := nondecreasing_iff_pairwise (b :: t)
+    simp only [nondecreasing, Bool.and_eq_true, decide_eq_true_eq, ih]
+    constructor
+    · rintro ⟨hab, hp⟩
+      refine List.pairwise_cons.mpr ⟨?_, hp⟩
+      intro x hx
+      rcases List.mem_cons.mp hx with rfl | hx
+      · exact hab
+      · exact Int.le_trans hab ((List.pairwise_cons.mp hp).1 x hx)
+    · intro hp
+      have := List.pairwise_cons.mp hp
+      exact ⟨this.1 b (by simp), this.2⟩
+
+theorem any_outside_iff (l : List Int) (n : Int) :
+    (l.any (fun v => decide (v < 0 ∨ v ≥ n)) = true) ↔ ¬ ∀ v ∈ l, 0 ≤ v ∧ v < n := by
+  simp only [List.any_eq_true, decide_eq_true_eq, Classical.not_forall]
+  constructor
+  · rintro ⟨v, hv, h⟩; exact ⟨v, hv, by omega⟩
+  · rintro ⟨v, hv, h⟩; exact ⟨v, hv, by omega⟩
+
+theorem checkCompressedAxes_error (nd : Nat) (c : Option (List Int)) (e : Err) (h : checkCompressedAxes nd c = .error e) : e = Err.value := by
+  unfold checkCompressedAxes at h
+  cases c with
+  | none => cases h
+  | some c =>
+    simp only at h
+    repeat' split at h
+    all_goals first | (cases h; rfl) | cases h
+
+/-- every rejection of the GCXS constructor is a `ValueError`, except the `TypeError` of iterating `compressed_axes=None` for an array
+with two or more axes (a clean class too) -/
+theorem gcxsCtor_error (dn dataLen : Nat) (indices indptr : List Int) (shape caxes : Option (List Int)) (e : Err)
+    (h : gcxsCtor dn dataLen indices indptr shape caxes = .error e) :
+    e = Err.value ∨ (e = Err.type ∧ caxes = none ∧ ∃ sh, shape = some sh ∧ 2 ≤ sh.length) := by
+  unfold gcxsCtor at h
+  cases shape with
+  | none => cases h; exact Or.inl rfl
+  | some sh =>
+    simp only at h
+    cases hc : checkCompressedAxes sh.length caxes with
+    | error e' =>
+      rw [hc] at h; cases h
+      exact Or.inl (checkCompressedAxes_error _ _ _ hc)
+    | ok u =>
+      rw [hc] at h
+      simp only at h
+      split at h
+      · cases h; exact Or.inl rfl
+      · split at h
+        · cases h; exact Or.inl rfl
+        · split at h
+          · cases h
+          · rename_i h0
+            split at h
+            · cases h; exact Or.inl rfl
+            · split at h
+              · split at h
+                · cases h; exact Or.inl rfl
+                · cases h
+              · rename_i h1
+                cases caxes with
+                | none =>
+                  cases h
+                  exact Or.inr ⟨rfl, rfl, sh, rfl, by omega⟩
+                | some c =>
+                  simp only at h
+                  repeat' split at h
+                  all_goals first | (cases h; exact Or.inl rfl) | cases h
+
+/-- **gcxsCtor_spec.** outside the 0-d region the constructor accepts exactly the triples of its contract -/
+theorem gcxsCtor_spec (dataLen : Nat) (indices indptr sh : List Int) (caxes : Option (List Int))
+    (hz : ¬ ExcludedZeroDim dataLen indices sh) :
+    gcxsCtor 1 dataLen indices indptr (some sh) caxes = .ok () ↔ gcxsContract dataLen indices indptr sh caxes := by
+  unfold gcxsCtor gcxsContract
+  show (match checkCompressedAxes sh.length caxes with
+    | .error e => Except.error e
+    | .ok () => _) = Except.ok () ↔ _
+  cases hc : checkCompressedAxes sh.length caxes with
+  | error e =>
+    refine ⟨fun h => (by cases h), fun h => (by cases h.2.1)⟩
+  | ok u =>
+    cases u
+    show (if (1 : Nat) ≠ 1 then _ else _) = Except.ok () ↔ _
+    rw [if_neg (by decide)]
+    by_cases hs : sh.any (· < 0) = true
+    · have hno := (any_neg_iff sh).mp hs
+      rw [if_pos hs]
+      exact ⟨fun h => (by cases h), fun h => absurd h.1 hno⟩
+    · have hall : ∀ d ∈ sh, 0 ≤ d := Classical.not_not.mp (mt (any_neg_iff sh).mpr hs)
+      rw [if_neg hs]
+      by_cases h0 : sh.length = 0
+      · have hnil : sh = [] := List.length_eq_zero_iff.mp h0
+        have hd : dataLen = 0 ∧ indices = [] := Classical.not_not.mp (fun hn => hz ⟨hnil, hn⟩)
+        rw [if_pos h0]
+        exact ⟨fun _ => ⟨hall, rfl, fun _ => hd, fun h => absurd h (by omega), fun h => absurd h (by omega), fun h => absurd h (by omega)⟩, fun _ => rfl⟩
+      · rw [if_neg h0]
+        by_cases hd : dataLen = indices.length
+        · rw [if_neg (fun h => h hd)]
+          by_cases h1 : sh.length = 1
+          · rw [if_pos h1]
+            by_cases hi : indices.any (fun v => decide (v < 0 ∨ v ≥ sh.getD 0 0)) = true
+            · have hno := (any_outside_iff indices _).mp hi
+              rw [if_pos hi]
+              exact ⟨fun h => (by cases h), fun h => absurd (h.2.2.2.2.1 h1) hno⟩
+            · have hin : ∀ v ∈ indices, 0 ≤ v ∧ v < sh.getD 0 0 := Classical.not_not.mp (mt (any_outside_iff indices _).mpr hi)
+              rw [if_neg hi]
+              exact ⟨fun _ => ⟨hall, rfl, fun h => absurd h h0, fun _ => hd, fun _ => hin, fun h => absurd h (by omega)⟩, fun _ => rfl⟩
+          · have h2 : 2 ≤ sh.length := by omega
+            rw [if_neg h1]
+            cases caxes with
+            | none =>
+              exact ⟨fun h => (by cases h), fun h => (h.2.2.2.2.2 h2).elim⟩
+            | some c =>
+              show (if (indptr.length : Int) ≠ compressedExtent sh c + 1 then _ else _) = Except.ok () ↔ _
+              by_cases hl : (indptr.length : Int) = compressedExtent sh c + 1
+              · rw [if_neg (fun h => h hl)]
+                by_cases he : indptr.head? ≠ some 0 ∨ indptr.getLast? ≠ some (indices.length : Int)
+                · rw [if_pos he]
+                  refine ⟨fun h => (by cases h), fun h => ?_⟩
+                  have hr := h.2.2.2.2.2 h2
+                  rcases he with he | he
+                  · exact absurd hr.2.1 he
+                  · exact absurd hr.2.2.1 he
+                · rw [if_neg he]
+                  have he1 : indptr.head? = some 0 := Classical.not_not.mp (fun h => he (Or.inl h))
+                  have he2 : indptr.getLast? = some (indices.length : Int) := Classical.not_not.mp (fun h => he (Or.inr h))
+                  by_cases hn : nondecreasing indptr = true
+                  · have hp := (nondecreasing_iff_pairwise indptr).mp hn
+                    rw [if_neg (fun h => h hn)]
+                    by_cases hi : indices.any (fun v => decide (v < 0 ∨ v ≥ uncompressedExtent sh c)) = true
+                    · have hno := (any_outside_iff indices _).mp hi
+                      rw [if_pos hi]
+                      exact ⟨fun h => (by cases h), fun h => absurd (h.2.2.2.2.2 h2).2.2.2.2 hno⟩
+                    · have hin := Classical.not_not.mp (mt (any_outside_iff indices _).mpr hi)
+                      rw [if_neg hi]
+                      exact ⟨fun _ => ⟨hall, rfl, fun h => absurd h h0, fun _ => hd, fun h => absurd h h1, fun _ => ⟨hl, he1, he2, hp, hin⟩⟩, fun _ => rfl⟩
+                  · have hnp : ¬ indptr.Pairwise (· ≤ ·) := mt (nondecreasing_iff_pairwise indptr).mpr hn
+                    rw [if_pos hn]
+                    exact ⟨fun h => (by cases h), fun h => absurd (h.2.2.2.2.2 h2).2.2.2.1 hnp⟩
+              · rw [if_pos hl]
+                exact ⟨fun h => (by cases h), fun h => absurd (h.2.2.2.2.2 h2).1 hl⟩
+        · rw [if_pos hd]
+          exact ⟨fun h => (by cases h), fun h => absurd (h.2.2.2.1 (by omega)) hd⟩
+
+/-- whatever the shape, a triple that meets the contract is accepted -/
+theorem gcxsCtor_accepts_contract (dataLen : Nat) (indices indptr sh : List Int) (caxes : Option (List Int))
+    (h : gcxsContract dataLen indices indptr sh caxes) : gcxsCtor 1 dataLen indices indptr (some sh) caxes = .ok () := by
+  refine (gcxsCtor_spec dataLen indices indptr sh caxes ?_).mpr h
+  rintro ⟨hnil, hno⟩
+  exact hno (h.2.2.1 (by simp [hnil]))
+
+/-- under the contract every index pointer lies in `[0, len(indices)]`: no row slice `indices[indptr[i] : indptr[i+1]]` reaches outside
+the array (the kernels read these slices without bounds checks) -/
+theorem indptr_in_bounds : ∀ (p : List Int) (n : Int), p.head? = some 0 → p.getLast? = some n → p.Pairwise (· ≤ ·) →
+    ∀ x ∈ p, 0 ≤ x ∧ x ≤ n := by
+  intro p n hh hl hp x hx
+  cases p with
+  | nil => cases hx
+  | cons a t =>
+    simp only [List.head?_cons, Option.some.injEq] at hh
+    subst hh
+    have hpc := List.pairwise_cons.mp hp
+    constructor
+    · rcases List.mem_cons.mp hx with rfl | hx'
+      · exact Int.le_refl _
+      · exact hpc.1 x hx'
+    · -- x ≤ last
+      have hlast : (0 :: t).getLast? = some n := hl
+      have hmem : n ∈ (0 :: t) := List.mem_of_getLast? hlast
+      -- in a pairwise-≤ list every element is ≤ the last one
+      have key : ∀ (l : List Int), l.Pairwise (· ≤ ·) → ∀ m, l.getLast? = some m → ∀ y ∈ l, y ≤ m := by
+        intro l
+        induction l with
+        | nil => intro _ m hm; cases hm
+        | cons b u ih =>
+          intro hpl m hm y hy
+          have hpl' := List.pairwise_cons.mp hpl
+          cases u with
+          | nil =>
+            simp only [List.getLast?_singleton, Option.some.injEq] at hm
+            subst hm
+            rcases List.mem_cons.mp hy with rfl | hy'
+            · exact Int.le_refl _
+            · cases hy'
+          | cons c v =>
+            have hm' : (c :: v).getLast? = some m := by simpa [List.getLast?_cons_cons] using hm
+            rcases List.mem_cons.mp hy with rfl | hy'
+            · exact hpl'.1 m (List.mem_of_getLast? hm')
+            · exact ih hpl'.2 m hm' y hy'
+      exact key (0 :: t) hp n hlast x hx
+
 end Validate
 end SparseV
